@@ -216,6 +216,76 @@ class FrameInfer:
         self.cache[key] = (writes, unknown)
         return writes, unknown
 
+    def may_read(self, cls, meth, attrs, _stack=None, _as=None):
+        """Which of `attrs` the method may READ (self.<attr> in load or
+        augmented-store position), transitively through self.m() calls,
+        super().m() calls and property getters.  Returns (reads, unknown):
+        `unknown` lists what defeats the analysis (self escaping to a
+        foreign callable, getattr(self, ...), __dict__ access)."""
+        attrs = set(attrs)
+        _stack = _stack or set()
+        key = (cls, meth, _as)
+        if key in _stack:
+            return set(), set()
+        _stack = _stack | {key}
+        if _as is None:
+            dcls, fn, kind = self.ci.find_method(cls, meth)
+        else:
+            dcls, fn = _as, (self.ci.classes[_as]["methods"].get(meth) or
+                             self.ci.classes[_as]["properties"].get(meth))
+        if fn is None:
+            return set(), {f"unresolved self.{meth}"}
+        reads, unknown = set(), set()
+        for node in ast.walk(fn):
+            if isinstance(node, ast.Attribute) and isinstance(
+                    node.value, ast.Name) and node.value.id == "self":
+                is_load = isinstance(node.ctx, ast.Load)
+                if node.attr in attrs and is_load:
+                    reads.add(node.attr)
+                if is_load:
+                    d2, fn2, k2 = self.ci.find_method(cls, node.attr)
+                    if fn2 is not None and k2 in ("property", "method"):
+                        r2, u2 = self.may_read(cls, node.attr, attrs, _stack)
+                        reads |= r2
+                        unknown |= u2
+            elif isinstance(node, ast.AugAssign) and isinstance(
+                    node.target, ast.Attribute) and isinstance(
+                    node.target.value, ast.Name) and \
+                    node.target.value.id == "self" and \
+                    node.target.attr in attrs:
+                reads.add(node.target.attr)
+            elif isinstance(node, ast.Call):
+                f = node.func
+                if isinstance(f, ast.Name) and f.id in ("getattr", "vars"):
+                    if node.args and isinstance(node.args[0], ast.Name) \
+                            and node.args[0].id == "self":
+                        unknown.add(f"{f.id}(self, ...) in {dcls}.{meth}")
+                if isinstance(f, ast.Attribute) and isinstance(
+                        f.value, ast.Call) and isinstance(
+                        f.value.func, ast.Name) and \
+                        f.value.func.id == "super":
+                    order = self.ci.mro(cls)
+                    if dcls in order:
+                        for c in order[order.index(dcls) + 1:]:
+                            if f.attr in self.ci.classes[c]["methods"]:
+                                r2, u2 = self.may_read(cls, f.attr, attrs,
+                                                       _stack, _as=c)
+                                reads |= r2
+                                unknown |= u2
+                                break
+                for arg in list(node.args) + [k.value for k in node.keywords]:
+                    if isinstance(arg, ast.Name) and arg.id == "self":
+                        root = _root(f)
+                        if root not in READONLY_CALLEE_ROOTS and not (
+                                isinstance(f, ast.Name) and
+                                f.id in ("isinstance", "type", "id", "len",
+                                         "super")):
+                            unknown.add(f"self passed to {ast.unparse(f)} "
+                                        f"in {dcls}.{meth}")
+            elif isinstance(node, ast.Attribute) and node.attr == "__dict__":
+                unknown.add(f"__dict__ access in {dcls}.{meth}")
+        return reads, unknown
+
     def _super(self, cls, dcls, meth, _stack):
         order = self.ci.mro(cls)
         if dcls in order:
